@@ -54,9 +54,10 @@ def steps(chk, tier, exe, d):
     # canary: corrupt the post-state of the first executed record and append it
     good = next(l for l in lines if '"x":1' in l and '"st":"run"' in l)
     bad = json.loads(good); bad["post"][1] = (bad["post"][1] ^ 1) if bad["post"][1] != -1 else 0
-    canary_idx = len(lines) + 1
-    with open(recs, "a") as f:
-        f.write(json.dumps(bad, separators=(",", ":")) + "\n")
+    canary_idx = 1
+    lines = [json.dumps(bad, separators=(",", ":"))] + lines
+    with open(recs, "w") as f:
+        f.write("\n".join(lines) + "\n")
     files = vlib.split_file(recs, vlib.NCPU, d, "g")
     outs = vlib.tlc_fold("IsaStepV", "IsaStepV.cfg", [f for f, _ in files])
     tot = {"n": 0, "ok": 0, "undef": 0, "refused": 0, "nbad": 0}
@@ -92,7 +93,7 @@ def steps(chk, tier, exe, d):
         raise vlib.MachineryError("recorder refused %d defined steps" % tot["refused"])
     chk.sample({"step_record": json.loads(lines[5])})
     chk.sample({"step_record": json.loads(lines[-3])})
-    alll = lines + [""]
+    alll = lines
     for idx, why in bads:
         rec = alll[idx - 1]
         if why == "executed-out-of-range":
